@@ -974,16 +974,27 @@ def inline_view(prog, fn, should_inline=None, max_depth=3, max_blocks=6000):
     inlined = []
     inlined_fns = []
     ghosts = []
-    work = [(b, (fn.name,), 0) for b in blocks]
+    work = [(b, (fn.name,), 0, None) for b in blocks]
     by_bb = {b['bb']: b for b in blocks}
     while work:
-        b, stack, depth = work.pop()
+        b, stack, depth, self_ty = work.pop()
         t = b['term']
         if not t or t['t'] != 'call' or depth >= max_depth or len(by_bb) > max_blocks:
             continue
-        g = prog.resolve(t['resolved'] or t['callee'], fn.crate) or prog.resolve(t['callee'], fn.crate)
+        # a trait method called on a concrete type — `Trait::m::<Buy>` from ordinary code, or `Trait::m::<Self>` inside a provided
+        # method that is itself being spliced for a concrete Self: the impl's method if there is one, else the provided body
+        g = None
+        recv_ty = (t.get('gargs') or [None])[0]
+        if recv_ty == 'Self':
+            recv_ty = self_ty
+        if not t.get('resolved') and recv_ty and '::' in t['callee'] and not t['callee'].startswith('<'):
+            tr, meth = t['callee'].rsplit('::', 1)
+            g = prog.resolve('<%s as %s>::%s' % (recv_ty, tr, meth), fn.crate)
+        if g is None:
+            g = prog.resolve(t['resolved'] or t['callee'], fn.crate) or prog.resolve(t['callee'], fn.crate)
         if g is None or g.name in stack or g.crate != fn.crate or not pred(fn, g) or len(g.blocks) > 600 or g.argc != len(t['args']):
             continue
+        next_self = recv_ty if (recv_ty and not g.name.startswith('<')) else None
         loff, boff = next_local, next_bb
         gl = g.d['locals']
         next_local += max(l['i'] for l in gl) + 1
@@ -1009,7 +1020,7 @@ def inline_view(prog, fn, should_inline=None, max_depth=3, max_blocks=6000):
         inlined.append(g.name)
         inlined_fns.append(g)
         for nb in new_blocks:
-            work.append((nb, stack + (g.name,), depth + 1))
+            work.append((nb, stack + (g.name,), depth + 1, next_self))
     nd = dict(d, blocks=blocks, locals=locals_, names=names)
     view = Fn(nd, fn.crate, fn.name)
     view.inlined = inlined
